@@ -653,6 +653,20 @@ impl World for ParserWorld {
         case.plan.len()
     }
 
+    fn sweep_len() -> u64 {
+        parser_sweep().len() as u64
+    }
+    fn sweep_case(i: u64) -> Option<ParserCase> {
+        parser_sweep().into_iter().nth(i as usize).map(|(_, c)| c)
+    }
+    fn sweep_some(indices: &[u64]) -> Vec<(u64, ParserCase)> {
+        let all = parser_sweep();
+        indices.iter().filter_map(|i| all.get(*i as usize).map(|(_, c)| (*i, c.clone()))).collect()
+    }
+    fn sweep_names() -> Vec<String> {
+        parser_sweep().into_iter().map(|(n, _)| n).collect()
+    }
+
     fn required_probes(prop: &str) -> &'static [&'static str] {
         match prop {
             "C13" => &[
@@ -1592,4 +1606,77 @@ fn proto<'a>(ex: &mut Exec<'a, '_>, cur: H<'a>, kind: u8, p: &Pat) -> Res {
     }
     ex.ctx.cov.flag(F_FAILOP);
     Ok(())
+}
+
+/// Exhaustion-style sweep for the Parser: every operation kind with a handful of patterns, alone
+/// and after one positioning step, on a handful of small texts (completely enumerated; the Miri
+/// tier runs a seed-chosen fraction of it in quick and all of it in thorough).
+pub fn parser_sweep() -> Vec<(String, ParserCase)> {
+    let texts = ["", "a", "ab,", " a \t", "é€", "😀a", "12", "-5x", "true", ",,", "a,b,", "aaab"];
+    let pats: Vec<Pat> = vec![
+        Pat::S(String::new()),
+        Pat::S("a".into()),
+        Pat::S(",".into()),
+        Pat::S("aab".into()),
+        Pat::S("é".into()),
+        Pat::S("abcdefghij".into()),
+        Pat::C('a'),
+        Pat::C(','),
+        Pat::C('😀'),
+    ];
+    let h = 0;
+    let mut ops: Vec<POp> = vec![POp::Trim { h }, POp::TrimStart { h }, POp::TrimEnd { h }, POp::ParseBool { h }, POp::IntoOtherError { h }];
+    for p in &pats {
+        let p = p.clone();
+        ops.extend([
+            POp::TrimMatches { h, p: p.clone() },
+            POp::TrimStartMatches { h, p: p.clone() },
+            POp::TrimEndMatches { h, p: p.clone() },
+            POp::StripPrefix { h, p: p.clone() },
+            POp::StripSuffix { h, p: p.clone() },
+            POp::FindSkip { h, p: p.clone() },
+            POp::RfindSkip { h, p: p.clone() },
+            POp::Split { h, p: p.clone() },
+            POp::Rsplit { h, p: p.clone() },
+            POp::SplitTerminator { h, p: p.clone() },
+            POp::RsplitTerminator { h, p: p.clone() },
+            POp::SplitKeep { h, p: p.clone() },
+        ]);
+        if p.as_string().len() == 1 {
+            for kind in 0..4 {
+                ops.push(POp::Proto { h, kind, p: p.clone() });
+            }
+        }
+    }
+    for n in [0usize, 1, 2, 3, 100] {
+        ops.push(POp::Skip { h, n });
+        ops.push(POp::SkipBack { h, n });
+    }
+    for ty in [IntTy::U8, IntTy::I8, IntTy::U128, IntTy::I128, IntTy::Usize] {
+        ops.push(POp::ParseInt { h, ty });
+    }
+    for form in 0..PM_FORMS as u8 {
+        ops.push(POp::Pm { h, form });
+    }
+    let prefixes: Vec<Option<POp>> = vec![None, Some(POp::Skip { h, n: 1 }), Some(POp::SkipBack { h, n: 1 }), Some(POp::Split { h, p: Pat::S(",".into()) })];
+    let mut out = Vec::new();
+    for (ti, t) in texts.iter().enumerate() {
+        for (pi, pre) in prefixes.iter().enumerate() {
+            for (oi, op) in ops.iter().enumerate() {
+                // the positioned variants only for every third operation (keeps the sweep small)
+                if pi > 0 && (oi + ti) % 3 != 0 {
+                    continue;
+                }
+                let mut plan = Vec::new();
+                if let Some(p) = pre {
+                    plan.push(p.clone());
+                }
+                plan.push(op.clone());
+                plan.push(POp::IntoError { h, kind: 2 });
+                let base = if (ti + oi) % 2 == 0 { 0 } else { 7 };
+                out.push((format!("parser/text={:?}/prefix={}/{:?}", t, pi, op), ParserCase { text: t.to_string(), base, plan }));
+            }
+        }
+    }
+    out
 }
